@@ -12,6 +12,7 @@ ABSTRACT = ('aml::create_pkg_length',)
 def new_interp(facts, abstract=ABSTRACT):
     I = Interp(facts, abstract)
     I.st.frames.append(Frame('<root>'))
+    sym.CTX = {}
     return I
 
 def params_of(body):
@@ -23,7 +24,11 @@ def params_of(body):
     return out
 
 def run_fn(I, d, args, tsub=None):
-    return I.call_local(d, args, tsub=tsub)
+    sym.CTX = I.st.ranges          # path facts are scoped to the interpretation; rule code sees none
+    try:
+        return I.call_local(d, args, tsub=tsub)
+    finally:
+        sym.CTX = {}
 
 def sym_args(I, body, prefix=''):
     return [I.sym_value(norm_ty(t), prefix + n) for n, t in params_of(body)]
@@ -35,7 +40,11 @@ def emit_value(I, value, ty, facts=None):
     if d is None: return None
     sink = OuterSink()
     I.st.roots.append(sink)
-    I.call_local(d, [RefV(Cell(value)), RefV(Cell(sink), True)])
+    sym.CTX = I.st.ranges
+    try:
+        I.call_local(d, [RefV(Cell(value)), RefV(Cell(sink), True)])
+    finally:
+        sym.CTX = {}
     I.st.roots.remove(sink)
     return norm_segs(sink.segs)
 
@@ -118,3 +127,41 @@ def table_types(facts):
     return out
 
 def tops_since(I, n): return I.tops[n:]
+
+# ---------------------------------------------------------------- comparing emission shapes
+
+def segs_equal(a, b, facts=()):
+    """structural equality of two segment lists with term equality decided by sym.equal; returns (ok, why)"""
+    a = norm_segs(list(a)); b = norm_segs(list(b))
+    if len(a) != len(b):
+        return False, 'different number of segments: %s vs %s' % (show_segs(a), show_segs(b))
+    for x, y in zip(a, b):
+        if x[0] != y[0]: return False, 'segment kind %s vs %s (%s vs %s)' % (x[0], y[0], show_segs([x]), show_segs([y]))
+        k = x[0]
+        if k == 'int':
+            if x[2] != y[2]: return False, 'width %d vs %d for %s' % (x[2], y[2], show_segs([x]))
+            ok, w = equal(strip_trunc(x[1]), strip_trunc(y[1]), facts)
+            if not ok: return False, 'value %s vs %s' % (show(x[1]), show(y[1]))
+        elif k == 'raw':
+            if x[1] != y[1] or not equal(x[2], y[2], facts)[0]: return False, 'raw bytes %s vs %s' % (show_segs([x]), show_segs([y]))
+        elif k == 'opaque':
+            if x[1] != y[1]: return False, 'child %s vs %s' % (show(x[1]), show(y[1]))
+        elif k == 'pkglen':
+            ok, w = equal(x[1], y[1], facts)
+            if not ok or x[2] != y[2]: return False, 'PkgLength(%s,%s) vs PkgLength(%s,%s)' % (show(x[1]), show(x[2]), show(y[1]), show(y[2]))
+        elif k == 'rep':
+            if not equal(x[1], y[1], facts)[0]: return False, 'repeat count %s vs %s' % (show(x[1]), show(y[1]))
+            ok, why = segs_equal(x[3], y[3], facts)
+            if not ok: return False, 'in repetition: ' + why
+        elif k == 'cond':
+            if x[1] != y[1]: return False, 'condition %s vs %s' % (show(x[1]), show(y[1]))
+            for p, q in ((x[2], y[2]), (x[3], y[3])):
+                ok, why = segs_equal(p, q, facts)
+                if not ok: return False, 'in branch of %s: %s' % (show(x[1]), why)
+        else:
+            if x != y: return False, '%r vs %r' % (x, y)
+    return True, ''
+
+def ctor_of(facts, ty, name='new'):
+    fs = fns_of(facts, ty)
+    return fs.get(name)
